@@ -279,18 +279,56 @@ theorem fresh_in_bounds_aligned' (stack size fn param : W) (mem : W → W)
   rcases ha with rfl | rfl | rfl | rfl | rfl | rfl | rfl | rfl | rfl <;> bv_omega
 
 
+theorem freshInit_mem_other (stack size fn param : W) (mem : W → W) (a : W)
+    (h : a ∉ (freshInit stack size fn param mem).writes) :
+    (freshInit stack size fn param mem).mem a = mem a := by
+  rw [freshInit_writes] at h
+  rw [freshInit_mem]
+  simp at h
+  simp [setM_apply, h]
+
+/-- every cell of the fresh frame (7 register cells, dummy return address, param) is one of
+    the cells `fiber_context_init` stored to -/
+theorem fresh_cells_written (stack size fn param : W) (mem : W → W) :
+    let s := freshInit stack size fn param mem
+    ∀ a ∈ frameCells s.sp ++ [s.sp + 56, s.sp + 64], a ∈ s.writes := by
+  simp only [freshInit_sp, freshInit_writes, frameCells]
+  generalize freshTop stack size = A
+  have e1 : A - 80#64 + 8#64 = A - 72#64 := by bv_omega
+  have e2 : A - 80#64 + 16#64 = A - 64#64 := by bv_omega
+  have e3 : A - 80#64 + 24#64 = A - 56#64 := by bv_omega
+  have e4 : A - 80#64 + 32#64 = A - 48#64 := by bv_omega
+  have e5 : A - 80#64 + 40#64 = A - 40#64 := by bv_omega
+  have e6 : A - 80#64 + 48#64 = A - 32#64 := by bv_omega
+  have e7 : A - 80#64 + 56#64 = A - 24#64 := by bv_omega
+  have e8 : A - 80#64 + 64#64 = A - 16#64 := by bv_omega
+  intro a ha
+  simp [e1, e2, e3, e4, e5, e6, e7, e8] at ha ⊢
+  omega
+
+theorem FrameAt_congr (mem mem' : W → W) (sp : W) (sv : Saved)
+    (h : ∀ a ∈ frameCells sp, mem a = mem' a) (hf : FrameAt mem' sp sv) : FrameAt mem sp sv := by
+  simp only [frameCells, List.mem_cons, List.not_mem_nil, or_false, forall_eq_or_imp,
+    forall_eq] at h
+  obtain ⟨h0, h1, h2, h3, h4, h5, h6⟩ := h
+  unfold FrameAt at *
+  rw [h0, h1, h2, h3, h4, h5, h6]; exact hf
+
 /-! ## Any number of contexts on any number of kernel threads, arbitrary switch sequences -/
 
-/-- where each context's `ctx_stack_pointer` field lives and which cells belong to it
-    (its stack and that field).  `owns` is an arbitrary predicate: any sizes, any placement. -/
+/-- which ids are kernel threads / contexts, where each context's `ctx_stack_pointer` field
+    lives and which cells belong to it (its stack and that field).  `owns`, `ctx`, `thr` are
+    arbitrary predicates: any number of contexts and threads, any sizes, any placement. -/
 structure Layout where
+  thr : Nat → Prop
+  ctx : Nat → Prop
   slot : Nat → W
   owns : Nat → W → Prop
 
 /-- contexts own their slot; no cell belongs to two contexts -/
 structure Layout.Ok (L : Layout) : Prop where
-  slot_owned : ∀ c, L.owns c (L.slot c)
-  disjoint : ∀ c d a, L.owns c a → L.owns d a → c = d
+  slot_owned : ∀ c, L.ctx c → L.owns c (L.slot c)
+  disjoint : ∀ c d a, L.ctx c → L.ctx d → L.owns c a → L.owns d a → c = d
 
 /-- ghost snapshot taken when a context is switched out (or created) -/
 structure Snap where
@@ -301,8 +339,8 @@ structure Snap where
   /-- `some param` for a context that has not run yet -/
   arg : Option W
 
-/-- kernel threads `t : Nat` with their own register files, one shared memory,
-    contexts `c : Nat`; `saved` is ghost state -/
+/-- kernel threads `t` with their own register files, one shared memory, contexts `c`;
+    `saved` is ghost state -/
 structure World where
   reg : Nat → Reg → W
   rip : Nat → Rip
@@ -351,11 +389,11 @@ def next (L : Layout) (lbl : Nat → W) (w : World) : Step → World
     belong to it; destroy only a suspended context. -/
 def Guard (L : Layout) (w : World) : Step → Prop
   | .swap t to =>
-      (∃ sn, w.saved to = some sn) ∧
+      L.thr t ∧ (∃ sn, w.saved to = some sn) ∧
       ∀ a ∈ pushCells (w.reg t .rsp), L.owns (w.running t) a ∧ a ≠ L.slot (w.running t)
-  | .compute t _ _ ws => ∀ aw ∈ ws, L.owns (w.running t) aw.1
+  | .compute t _ _ ws => L.thr t ∧ ∀ aw ∈ ws, L.owns (w.running t) aw.1
   | .create c stack size fn param =>
-      w.saved c = none ∧ (∀ t, w.running t ≠ c) ∧
+      L.ctx c ∧ w.saved c = none ∧ (∀ t, L.thr t → w.running t ≠ c) ∧
       ∀ a ∈ (freshInit stack size fn param w.mem).writes, L.owns c a ∧ a ≠ L.slot c
   | .destroy c => ∃ sn, w.saved c = some sn
 
@@ -375,8 +413,10 @@ structure SnapOk (L : Layout) (c : Nat) (sn : Snap) : Prop where
     L.owns c (sn.mem (L.slot c) + 64) ∧ sn.mem (sn.mem (L.slot c) + 64) = p
 
 structure WInv (L : Layout) (w : World) : Prop where
-  inj : ∀ t t', w.running t = w.running t' → t = t'
-  susp : ∀ c sn, w.saved c = some sn → ∀ t, w.running t ≠ c
+  inj : ∀ t t', L.thr t → L.thr t' → w.running t = w.running t' → t = t'
+  rctx : ∀ t, L.thr t → L.ctx (w.running t)
+  sctx : ∀ c sn, w.saved c = some sn → L.ctx c
+  susp : ∀ c sn, w.saved c = some sn → ∀ t, L.thr t → w.running t ≠ c
   ok : ∀ c sn, w.saved c = some sn → SnapOk L c sn
   agree : ∀ c sn, w.saved c = some sn → ∀ a, L.owns c a → w.mem a = sn.mem a
 
@@ -391,5 +431,266 @@ theorem applyWrites_other (mem : W → W) (ws : List (W × W)) (a : W)
     · have : b ≠ a := h (b, v) (by simp)
       simp [setM_apply, Ne.symm this]
     · intro aw haw; exact h aw (by simp [haw])
+
+theorem inv_compute (L : Layout) (hL : L.Ok) (lbl : Nat → W) (w : World) (hi : WInv L w)
+    (t : Nat) (reg : Reg → W) (rip : Rip) (ws : List (W × W))
+    (hg : Guard L w (.compute t reg rip ws)) : WInv L (next L lbl w (.compute t reg rip ws)) := by
+  obtain ⟨hinj, hrctx, hsctx, hsusp, hok, hag⟩ := hi
+  obtain ⟨ht, hg⟩ := hg
+  refine ⟨hinj, hrctx, hsctx, hsusp, hok, ?_⟩
+  intro c sn hs a ha
+  simp only [next]
+  rw [applyWrites_other]
+  · exact hag c sn hs a ha
+  · intro aw haw heq
+    have := hL.disjoint _ _ _ (hrctx t ht) (hsctx c sn hs) (hg aw haw) (heq ▸ ha)
+    exact hsusp c sn hs t ht this
+
+theorem inv_destroy (L : Layout) (lbl : Nat → W) (w : World) (hi : WInv L w)
+    (c : Nat) : WInv L (next L lbl w (.destroy c)) := by
+  obtain ⟨hinj, hrctx, hsctx, hsusp, hok, hag⟩ := hi
+  refine ⟨hinj, hrctx, ?_, ?_, ?_, ?_⟩ <;> (intro d sn hs; simp only [next, upd] at hs; split at hs)
+  all_goals first | (simp at hs; done) | skip
+  · exact hsctx d sn hs
+  · exact hsusp d sn hs
+  · exact hok d sn hs
+  · exact hag d sn hs
+
+theorem inv_create (L : Layout) (hL : L.Ok) (lbl : Nat → W) (w : World) (hi : WInv L w)
+    (c : Nat) (stack size fn param : W)
+    (hg : Guard L w (.create c stack size fn param)) :
+    WInv L (next L lbl w (.create c stack size fn param)) := by
+  obtain ⟨hinj, hrctx, hsctx, hsusp, hok, hag⟩ := hi
+  obtain ⟨hc, hnone, hnr, hown⟩ := hg
+  have hfr := fresh_frame' stack size fn param w.mem
+  have hcw := fresh_cells_written stack size fn param w.mem
+  have hoth := freshInit_mem_other stack size fn param w.mem
+  simp only [next]
+  generalize freshInit stack size fn param w.mem = s at *
+  obtain ⟨hF, _, hP, _, _⟩ := hfr
+  -- cells of the new frame are owned by c and differ from its slot
+  have hcell : ∀ a ∈ frameCells s.sp ++ [s.sp + 56, s.sp + 64], L.owns c a ∧ a ≠ L.slot c :=
+    fun a ha => hown a (hcw a ha)
+  have hm' : ∀ a ∈ frameCells s.sp ++ [s.sp + 56, s.sp + 64],
+      setM s.mem (L.slot c) s.sp a = s.mem a := fun a ha => by
+    simp [setM_apply, (hcell a ha).2]
+  refine ⟨hinj, hrctx, ?_, ?_, ?_, ?_⟩
+  · intro d sn hs
+    by_cases hd : d = c
+    · subst hd; exact hc
+    · simp only [upd, hd, if_false] at hs; exact hsctx d sn hs
+  · intro d sn hs
+    by_cases hd : d = c
+    · subst hd; exact hnr
+    · simp only [upd, hd, if_false] at hs; exact hsusp d sn hs
+  · intro d sn hs
+    by_cases hd : d = c
+    · subst hd
+      simp only [upd, if_true, Option.some.injEq] at hs
+      subst hs
+      refine ⟨?_, ?_, ?_⟩
+      · simp only [setM_same]
+        simp only [FrameAt, frameCells, List.cons_append, List.nil_append, List.mem_cons,
+          List.not_mem_nil, or_false, forall_eq_or_imp, forall_eq] at hF hm' ⊢
+        obtain ⟨m0, m1, m2, m3, m4, m5, m6, _, _⟩ := hm'
+        rw [m0, m1, m2, m3, m4, m5, m6]
+        exact hF
+      · simp only [setM_same]
+        intro a ha
+        exact (hcell a (by simp [ha])).1
+      · intro p hp
+        simp only [Option.some.injEq] at hp
+        subst hp
+        simp only [setM_same]
+        refine ⟨(hcell _ (by simp)).1, ?_⟩
+        rw [hm' _ (by simp)]; exact hP
+    · simp only [upd, hd, if_false] at hs; exact hok d sn hs
+  · intro d sn hs a ha
+    by_cases hd : d = c
+    · subst hd
+      simp only [upd, if_true, Option.some.injEq] at hs
+      subst hs; rfl
+    · simp only [upd, hd, if_false] at hs
+      have hdc := hsctx d sn hs
+      have hne : a ≠ L.slot c :=
+        fun h => hd (hL.disjoint _ _ _ hdc hc ha (h ▸ hL.slot_owned c hc))
+      have hnw : a ∉ s.writes := fun h => hd (hL.disjoint _ _ _ hdc hc ha (hown a h).1)
+      simp only [setM_apply, hne, if_false]
+      rw [hoth a hnw]
+      exact hag d sn hs a ha
+
+theorem inv_swap (L : Layout) (hL : L.Ok) (lbl : Nat → W) (w : World) (hi : WInv L w)
+    (t to : Nat) (hg : Guard L w (.swap t to)) : WInv L (next L lbl w (.swap t to)) := by
+  obtain ⟨hinj, hrctx, hsctx, hsusp, hok, hag⟩ := hi
+  obtain ⟨ht, ⟨sn0, hs0⟩, hroom⟩ := hg
+  have hne : w.running t ≠ to := hsusp to sn0 hs0 t ht
+  have hfc : L.ctx (w.running t) := hrctx t ht
+  have hclear : L.slot (w.running t) ∉ pushCells ((machineOf w t).reg .rsp) :=
+    fun h => (hroom _ h).2 rfl
+  -- cells of other contexts are untouched
+  have hkeep : ∀ d, L.ctx d → d ≠ w.running t → ∀ a, L.owns d a →
+      (swap lbl (L.slot (w.running t)) (L.slot to) (machineOf w t)).mem a = w.mem a := by
+    intro d hdc hd a ha
+    apply swap_writes_only'
+    · intro h; exact hd (hL.disjoint _ _ _ hdc hfc ha (hroom a h).1)
+    · intro h; exact hd (hL.disjoint _ _ _ hdc hfc ha (h ▸ hL.slot_owned _ hfc))
+  have hsf := swap_saves_frame' lbl (L.slot (w.running t)) (L.slot to) (machineOf w t) hclear
+  simp only [next]
+  generalize hm' : swap lbl (L.slot (w.running t)) (L.slot to) (machineOf w t) = m' at *
+  refine ⟨?_, ?_, ?_, ?_, ?_, ?_⟩
+  · intro t1 t2 ht1 ht2 h
+    simp only [upd] at h
+    by_cases h1 : t1 = t <;> by_cases h2 : t2 = t <;> simp only [h1, h2, if_true, if_false] at h
+    · rw [h1, h2]
+    · exact absurd h.symm (hsusp to sn0 hs0 t2 ht2)
+    · exact absurd h (hsusp to sn0 hs0 t1 ht1)
+    · exact hinj _ _ ht1 ht2 h
+  · intro t1 ht1
+    simp only [upd]
+    by_cases h1 : t1 = t
+    · simp only [h1, if_true]; exact hsctx to sn0 hs0
+    · simp only [h1, if_false]; exact hrctx t1 ht1
+  · intro d sn hs
+    simp only [upd] at hs
+    by_cases hd : d = w.running t
+    · rw [hd]; exact hfc
+    · simp only [hd, if_false] at hs
+      by_cases hd2 : d = to
+      · simp [hd2] at hs
+      · simp only [hd2, if_false] at hs; exact hsctx d sn hs
+  · intro d sn hs t1 ht1
+    simp only [upd] at hs ⊢
+    by_cases hd : d = w.running t
+    · subst hd
+      by_cases h1 : t1 = t
+      · simp only [h1, if_true]; exact fun h => hne h.symm
+      · simp only [h1, if_false]; exact fun h => h1 (hinj _ _ ht1 ht h)
+    · simp only [hd, if_false] at hs
+      by_cases hd2 : d = to
+      · simp [hd2] at hs
+      · simp only [hd2, if_false] at hs
+        by_cases h1 : t1 = t
+        · simp only [h1, if_true]; exact fun h => hd2 h.symm
+        · simp only [h1, if_false]; exact hsusp d sn hs t1 ht1
+  · intro d sn hs
+    simp only [upd] at hs
+    by_cases hd : d = w.running t
+    · subst hd
+      simp only [if_true, Option.some.injEq] at hs
+      subst hs
+      refine ⟨?_, ?_, ?_⟩
+      · simp only [hsf.1]; exact hsf.2
+      · simp only [hsf.1]
+        intro a ha
+        rw [frameCells_of_pushed] at ha
+        exact (hroom a (List.mem_reverse.mp ha)).1
+      · intro p hp; simp at hp
+    · simp only [hd, if_false] at hs
+      by_cases hd2 : d = to
+      · simp [hd2] at hs
+      · simp only [hd2, if_false] at hs; exact hok d sn hs
+  · intro d sn hs a ha
+    simp only [upd] at hs
+    by_cases hd : d = w.running t
+    · subst hd
+      simp only [if_true, Option.some.injEq] at hs
+      subst hs; rfl
+    · simp only [hd, if_false] at hs
+      by_cases hd2 : d = to
+      · simp [hd2] at hs
+      · simp only [hd2, if_false] at hs
+        show m'.mem a = sn.mem a
+        rw [hkeep d (hsctx d sn hs) hd a ha]; exact hag d sn hs a ha
+
+theorem inv_step (L : Layout) (hL : L.Ok) (lbl : Nat → W) (w : World) (hi : WInv L w)
+    (e : Step) (hg : Guard L w e) : WInv L (next L lbl w e) := by
+  cases e with
+  | swap t to => exact inv_swap L hL lbl w hi t to hg
+  | compute t reg rip ws => exact inv_compute L hL lbl w hi t reg rip ws hg
+  | create c stack size fn param => exact inv_create L hL lbl w hi c stack size fn param hg
+  | destroy c => exact inv_destroy L lbl w hi c
+
+theorem inv_run (L : Layout) (hL : L.Ok) (lbl : Nat → W) (w : World) (hi : WInv L w)
+    (es : List Step) (hv : Valid L lbl w es) : WInv L (runSteps L lbl w es) := by
+  induction es generalizing w with
+  | nil => exact hi
+  | cons e es ih => exact ih _ (inv_step L hL lbl w hi e hv.1) hv.2
+
+/-- what the resumed context sees -/
+theorem resume_exact' (L : Layout) (hL : L.Ok) (lbl : Nat → W) (w : World) (hi : WInv L w)
+    (t to : Nat) (sn : Snap) (hs : w.saved to = some sn) (hg : Guard L w (.swap t to)) :
+    let w' := next L lbl w (.swap t to)
+    w'.running t = to ∧
+    savedOf (w'.reg t) sn.regs.rip = sn.regs ∧
+    w'.rip t = .atAddr sn.regs.rip ∧
+    (∀ a, L.owns to a → w'.mem a = sn.mem a) ∧
+    (∀ p, sn.arg = some p → w'.reg t .rdi = p) := by
+  obtain ⟨hinj, hrctx, hsctx, hsusp, hok, hag⟩ := hi
+  obtain ⟨ht, _, hroom⟩ := hg
+  have hne : to ≠ w.running t := fun h => hsusp to sn hs t ht h.symm
+  have hfc : L.ctx (w.running t) := hrctx t ht
+  have htc : L.ctx to := hsctx to sn hs
+  obtain ⟨hfr, hcells, harg⟩ := hok to sn hs
+  have hslot : w.mem (L.slot to) = sn.mem (L.slot to) := hag to sn hs _ (hL.slot_owned to htc)
+  have hnp : ∀ a, L.owns to a →
+      a ∉ pushCells ((machineOf w t).reg .rsp) ∧ a ≠ L.slot (w.running t) := by
+    intro a ha
+    refine ⟨fun h => hne (hL.disjoint _ _ _ htc hfc ha (hroom a h).1), ?_⟩
+    intro h; exact hne (hL.disjoint _ _ _ htc hfc ha (h ▸ hL.slot_owned _ hfc))
+  have hF : FrameAt (machineOf w t).mem ((machineOf w t).mem (L.slot to)) sn.regs := by
+    show FrameAt w.mem (w.mem (L.slot to)) sn.regs
+    rw [hslot]
+    exact FrameAt_congr _ _ _ _ (fun a ha => hag to sn hs a (hcells a ha)) hfr
+  have hd : ∀ a ∈ frameCells ((machineOf w t).mem (L.slot to)),
+      a ∉ pushCells ((machineOf w t).reg .rsp) ∧ a ≠ L.slot (w.running t) := by
+    intro a ha
+    have ha' : a ∈ frameCells (sn.mem (L.slot to)) := by
+      have : (machineOf w t).mem (L.slot to) = sn.mem (L.slot to) := hslot
+      rw [this] at ha; exact ha
+    exact hnp a (hcells a ha')
+  have hres := swap_restores' lbl (L.slot (w.running t)) (L.slot to) (machineOf w t) sn.regs hF hd
+  simp only [next, upd_same]
+  refine ⟨trivial, hres.1, hres.2, ?_, ?_⟩
+  · intro a ha
+    rw [swap_writes_only' _ _ _ _ _ (hnp a ha).1 (hnp a ha).2]
+    exact hag to sn hs a ha
+  · intro p hp
+    obtain ⟨ho, hv⟩ := harg p hp
+    rw [swap_rdi]
+    have h64 : (machineOf w t).mem (L.slot to) + 64 = sn.mem (L.slot to) + 64 := by
+      show w.mem (L.slot to) + 64 = _
+      rw [hslot]
+    rw [h64, savedMem_other _ _ _ _ _ (hnp _ ho).1 (hnp _ ho).2]
+    show w.mem _ = p
+    rw [hag to sn hs _ ho]; exact hv
+
+/-- steps that end the suspension of context `c` -/
+def Step.touches (c : Nat) : Step → Prop
+  | .swap _ to => to = c
+  | .compute _ _ _ _ => False
+  | .create d _ _ _ _ => d = c
+  | .destroy d => d = c
+
+/-- a suspended context's snapshot stays what it is until someone resumes / destroys it -/
+theorem saved_stable (L : Layout) (lbl : Nat → W) (w : World) (hi : WInv L w) (c : Nat)
+    (sn : Snap) (hs : w.saved c = some sn) (es : List Step) (hv : Valid L lbl w es)
+    (hL : L.Ok) (hnt : ∀ e ∈ es, ¬ e.touches c) : (runSteps L lbl w es).saved c = some sn := by
+  induction es generalizing w with
+  | nil => exact hs
+  | cons e es ih =>
+    have he : ¬ e.touches c := hnt e (by simp)
+    refine ih _ (inv_step L hL lbl w hi e hv.1) ?_ hv.2 (fun e' h' => hnt e' (by simp [h']))
+    cases e with
+    | swap t to =>
+      have hne : c ≠ w.running t := fun h => hi.susp c sn hs t hv.1.1 h.symm
+      have hto : c ≠ to := fun h => he h.symm
+      simp [next, upd, hne, hto, hs]
+    | compute t reg rip ws => exact hs
+    | create d stack size fn param =>
+      have : c ≠ d := fun h => he h.symm
+      simp [next, upd, this, hs]
+    | destroy d =>
+      have : c ≠ d := fun h => he h.symm
+      simp [next, upd, this, hs]
 
 end LibfiberVerif.Ctx
